@@ -168,32 +168,6 @@ def any_of_wrapped_any_cases():
     return out
 
 
-def registry_cases(chk):
-    """spec/MC_Registry.tla: the process-global tables behind register_type and
-    `class E(V, extend=True)`; every history of the machine replayed on the real classes and every
-    query observed afterwards (harness/registry.py), decided by spec/Trace_Registry.tla"""
-    from . import registry
-    steps = 2 if chk.tier == "quick" else 3
-    res = chk.model_check("MC_Registry", {"constants": {"MaxSteps": str(steps)},
-                                          "invariants": ["CompleteCustomTypeAlwaysDispatches", "BuiltinsKeepTheirVisit",
-                                                         "StateIsRunOfHistory", "PrivateFormatterHelpersStayPrivate"],
-                                          "properties": ["RegistrationIsLocal", "ExtensionIsLocal"]},
-                          name="C16_MC_Registry", dump=True)
-    events = []
-    share = 1.0 if chk.tier == "quick" else 0.1
-    for st in core.load_dump(res):
-        if len(st["hist"]) == steps and share < 1.0 and chk.rng.random() >= share:
-            continue
-        ev = registry.replay(st["hist"])
-        ev.update({"id": len(events) + 1, "hist": st["hist"]})
-        events.append(ev)
-        chk.count("registry_histories")
-    chk.require(len(events) >= 1000, "too few registry histories (%d)" % len(events))
-    verdicts = chk.validate_events("Trace_Registry", events, name="C16_Trace_Registry")
-    chk.absorb(events, verdicts, lambda e: {"registry_history": e})
-    chk.sample({"registry_history": events[len(events) // 2]})
-
-
 def main(chk):
     core.setup_repo_path()
     quick = chk.tier == "quick"
@@ -229,7 +203,8 @@ def main(chk):
     chk.absorb(events, verdicts, describe)
     for e in events[:: max(1, len(events) // 4)][:4]:
         chk.sample(describe(e))
-    registry_cases(chk)
+    from . import registry
+    registry.cases(chk, "C16")
     chk.exhaustive = nvals is None
     chk.assumptions = ["the forwarding CustomSchema of harness/customtype.py (forwards __validate__/__generate__/"
                        "__represent__/__substitute__ with path, indent and **kwargs)",
